@@ -43,7 +43,8 @@ def new_memento(ci, value):
     )
 
 
-def build_ops(values=("small", "oversize", "none"), overrides=True, metadata=True, forgets=True, other_value=True):
+def build_ops(values=("small", "oversize", "none"), overrides=True, metadata=True, forgets=True, other_value=True,
+              metadata_with_data=False):
     ops = []
     for ci in range(len(CALLS)):
         for v in values:
@@ -62,6 +63,9 @@ def build_ops(values=("small", "oversize", "none"), overrides=True, metadata=Tru
     if metadata:
         ops.append(("write_metadata", 0, b"log-1"))
         ops.append(("write_metadata", 2, b"log-2"))
+    if metadata_with_data:
+        # the value is written next to the data object (store_with_content_key), a marker in the metadata store
+        ops.append(("write_metadata_with_data", 0, b"log-3"))
     return ops
 
 
@@ -92,7 +96,7 @@ class Model:
         elif k == "forget_everything":
             self.entries.clear()
             self.meta.clear()
-        elif k == "write_metadata":
+        elif k in ("write_metadata", "write_metadata_with_data"):
             self.meta[op[1]] = op[2]
 
 
@@ -100,7 +104,13 @@ def applicable(model, op):
     """metadata is only written for calls that are memoized (the public API requires the memento)"""
     if op[0] == "write_metadata":
         return op[1] in model.entries
+    if op[0] == "write_metadata_with_data":
+        return op[1] in model.entries and VALUES[model.entries[op[1]][0]] is not None  # needs a stored data object
     return True
+
+
+class NotApplicable(LookupError):
+    """raised by apply_op when the operation has no object to act on in the current store (harness-level skip)"""
 
 
 def apply_op(backend, op, kept=None):
@@ -121,6 +131,12 @@ def apply_op(backend, op, kept=None):
         backend.forget_everything()
     elif k == "write_metadata":
         backend.write_metadata(FWAS[op[1]].fn_reference_with_arg_hash(), "log", op[2])
+    elif k == "write_metadata_with_data":
+        fah = FWAS[op[1]].fn_reference_with_arg_hash()
+        mem = backend.get_memento(fah)
+        if mem is None or mem.content_key is None:
+            raise NotApplicable("no stored data object to attach metadata to")
+        backend.write_metadata(fah, "log", op[2], store_with_content_key=mem.content_key)
     return None
 
 
